@@ -42,6 +42,19 @@ public:
     // In place operators
     //------------------------------------------------------------------------------------//
     void operator=(const TensorFilterViewExpr<Tensor<T,Rest...>,Tensor<bool,Rest...>,DIMS> &src) {
+#if !(FASTOR_NO_ALIAS)
+        if (_does_alias) {
+            _does_alias = false;
+            // Evaluate this into a temporary
+            auto tmp_this_tensor = get_tensor();
+            auto tmp = TensorFilterViewExpr<Tensor<T,Rest...>,Tensor<bool,Rest...>,DIMS>(tmp_this_tensor,fl_expr);
+            // Assign other to temporary
+            tmp = src;
+            // assign temporary to this
+            this->operator=(tmp);
+            return;
+        }
+#endif
 #ifndef NDEBUG
         FASTOR_ASSERT(src.size()==this->size(), "TENSOR SIZE MISMATCH");
         // Check if shape of tensors match
@@ -64,6 +77,19 @@ public:
     }
     template<typename Derived, size_t OTHER_DIMS, enable_if_t_<!requires_evaluation_v<Derived>,bool> = false>
     void operator=(const AbstractTensor<Derived,OTHER_DIMS> &src) {
+#if !(FASTOR_NO_ALIAS)
+        if (_does_alias) {
+            _does_alias = false;
+            // Evaluate this into a temporary
+            auto tmp_this_tensor = get_tensor();
+            auto tmp = TensorFilterViewExpr<Tensor<T,Rest...>,Tensor<bool,Rest...>,DIMS>(tmp_this_tensor,fl_expr);
+            // Assign other to temporary
+            tmp = src;
+            // assign temporary to this
+            this->operator=(tmp);
+            return;
+        }
+#endif
 #ifndef NDEBUG
         FASTOR_ASSERT(src.self().size()==this->size(), "TENSOR SIZE MISMATCH");
         // Check if shape of tensors match
@@ -85,6 +111,19 @@ public:
     }
     template<typename Derived, size_t OTHER_DIMS, enable_if_t_<!requires_evaluation_v<Derived>,bool> = false>
     void operator+=(const AbstractTensor<Derived,OTHER_DIMS> &src) {
+#if !(FASTOR_NO_ALIAS)
+        if (_does_alias) {
+            _does_alias = false;
+            // Evaluate this into a temporary
+            auto tmp_this_tensor = get_tensor();
+            auto tmp = TensorFilterViewExpr<Tensor<T,Rest...>,Tensor<bool,Rest...>,DIMS>(tmp_this_tensor,fl_expr);
+            // Assign other to temporary
+            tmp = src;
+            // assign temporary to this
+            this->operator+=(tmp);
+            return;
+        }
+#endif
 #ifndef NDEBUG
         FASTOR_ASSERT(src.self().size()==this->size(), "TENSOR SIZE MISMATCH");
         // Check if shape of tensors match
@@ -106,6 +145,19 @@ public:
     }
     template<typename Derived, size_t OTHER_DIMS, enable_if_t_<!requires_evaluation_v<Derived>,bool> = false>
     void operator-=(const AbstractTensor<Derived,OTHER_DIMS> &src) {
+#if !(FASTOR_NO_ALIAS)
+        if (_does_alias) {
+            _does_alias = false;
+            // Evaluate this into a temporary
+            auto tmp_this_tensor = get_tensor();
+            auto tmp = TensorFilterViewExpr<Tensor<T,Rest...>,Tensor<bool,Rest...>,DIMS>(tmp_this_tensor,fl_expr);
+            // Assign other to temporary
+            tmp = src;
+            // assign temporary to this
+            this->operator-=(tmp);
+            return;
+        }
+#endif
 #ifndef NDEBUG
         FASTOR_ASSERT(src.self().size()==this->size(), "TENSOR SIZE MISMATCH");
         // Check if shape of tensors match
@@ -127,6 +179,19 @@ public:
     }
     template<typename Derived, size_t OTHER_DIMS, enable_if_t_<!requires_evaluation_v<Derived>,bool> = false>
     void operator*=(const AbstractTensor<Derived,OTHER_DIMS> &src) {
+#if !(FASTOR_NO_ALIAS)
+        if (_does_alias) {
+            _does_alias = false;
+            // Evaluate this into a temporary
+            auto tmp_this_tensor = get_tensor();
+            auto tmp = TensorFilterViewExpr<Tensor<T,Rest...>,Tensor<bool,Rest...>,DIMS>(tmp_this_tensor,fl_expr);
+            // Assign other to temporary
+            tmp = src;
+            // assign temporary to this
+            this->operator*=(tmp);
+            return;
+        }
+#endif
 #ifndef NDEBUG
         FASTOR_ASSERT(src.self().size()==this->size(), "TENSOR SIZE MISMATCH");
         // Check if shape of tensors match
@@ -148,6 +213,19 @@ public:
     }
     template<typename Derived, size_t OTHER_DIMS, enable_if_t_<!requires_evaluation_v<Derived>,bool> = false>
     void operator/=(const AbstractTensor<Derived,OTHER_DIMS> &src) {
+#if !(FASTOR_NO_ALIAS)
+        if (_does_alias) {
+            _does_alias = false;
+            // Evaluate this into a temporary
+            auto tmp_this_tensor = get_tensor();
+            auto tmp = TensorFilterViewExpr<Tensor<T,Rest...>,Tensor<bool,Rest...>,DIMS>(tmp_this_tensor,fl_expr);
+            // Assign other to temporary
+            tmp = src;
+            // assign temporary to this
+            this->operator/=(tmp);
+            return;
+        }
+#endif
 #ifndef NDEBUG
         FASTOR_ASSERT(src.self().size()==this->size(), "TENSOR SIZE MISMATCH");
         // Check if shape of tensors match
